@@ -98,6 +98,13 @@ def run(ctx):
             ctx.leanchecker([MODULE])
     with np.errstate(all="ignore"):
         search(ctx, ctx.budget(4, 30) + (20 if ctx.broken() else 0))
+        if r is not None:
+            hseed = ctx.rng.randrange(10 ** 6)
+            corecheck.history_pass(ctx, r[2], ["Tdown4", "Ttrace", "rho_n", "fluxup3_n", "fluxdown3_n", "Stressdown3_n", "Stressup3_n",
+                                               "Stresstrace_n", "press_n", "anisotropic_press_down3_n", "conserved_D", "conserved_E",
+                                               "conserved_Sdown4", "udown4", "uup4", "hdown4"],
+                                   lambda N: corecheck.make_rel(np.random.default_rng(hseed), N=N, order=4, fluid=True),
+                                   "C09", Ns=(8, 16), max_alts=None if ctx.tier == "thorough" or ctx.broken() else 14)
 
 
 def replay(ctx, obj):
